@@ -28,7 +28,7 @@ func init() {
 			"(same document, external fragment in same/parent/sibling/child directory, whole file in another directory whose object holds a relative ref, untyped x- extension) × chain length 1..2 × path spellings " +
 			"(x.json, ./x.json, ../d/x.json, d/../x.json, absolute, doubled slash) × root directory depth × entry point (file, data+path, data, http URI); shapes: diamond, self and mutual cycles per kind, " +
 			"callback/path-item cycles, pointer escapes (~0, ~1, ~01 with decoy siblings), dangling (component, file, nil field), wrong kind, scalar target, slash-less fragment, pure $ref cycle, '#', " +
-			"histories of 2..3 loads on ONE Loader (a revision whose reference dangles below a referenced component, then the corrected one with the same reference texts; every pair of entry points LoadFromData / LoadFromFile / LoadFromDataWithPath / LoadFromURI; the same root twice; two roots sharing an external document that the first load walked cleanly / left half-walked), null members at loop-element positions (in the root, below a typed target, below an untyped x- target), two documents with one path on two hosts, the #29 two-directory layout, kind clash per slot (same document / document loaded through the reference), path-item chains (2..3 hops, across directories, cyclic, to a whole file, through a callback), '#/…' inside whole-file elements per kind, pointers through a header, 3-hop chains per kind; then a seeded random stream of 2..4-file layouts with random components whose child slots are inline values or references to random components by random spelling. " +
+			"histories of 2..3 loads on ONE Loader (a revision whose reference dangles below a referenced component, then the corrected one with the same reference texts; every pair of entry points LoadFromData / LoadFromFile / LoadFromDataWithPath / LoadFromURI; the same root twice; two roots sharing an external document that the first load walked cleanly / left half-walked; histories over a store that CHANGES between the loads: the root edited in place — repaired, broken by the edit, changed, three revisions — for every pair of located entry points, an external fragment document edited, a whole-file element replaced / removed, an external document appearing / disappearing), null members at loop-element positions (in the root, below a typed target, below an untyped x- target), two documents with one path on two hosts, the #29 two-directory layout, kind clash per slot (same document / document loaded through the reference), path-item chains (2..3 hops, across directories, cyclic, to a whole file, through a callback), '#/…' inside whole-file elements per kind, pointers through a header, 3-hop chains per kind; then a seeded random stream of 2..4-file layouts with random components whose child slots are inline values or references to random components by random spelling. " +
 			"A case is non-trivial when the driver reports at least one branch (it always reports the reference forms, kinds and classes present).",
 		Exhaustive: true,
 		Gen:        genC02,
@@ -43,7 +43,7 @@ func init() {
 			"value objects are generated in the marshaller's normal form, so that Value marshals back to the raw object",
 			"IsExternalRefsAllowed = true",
 			"no parameter with both schema and content is generated (the loader rejects it); a document with a null member where an object belongs may be rejected or loaded — when it loads, its references must be resolved",
-			"one in-memory store for all loads of a history (files do not change between the loads); at most one LoadFromData load per history",
+			"within one epoch of a history one in-memory store; between epochs the store is replaced (files edited, added, removed) while the Loader stays; at most one LoadFromData load per epoch (so several per history)",
 			"RefPath() is not compared (for a reference met first through a backtrack callback it depends on the visiting order)",
 		},
 	})
@@ -1316,8 +1316,10 @@ func c02ShapesRound5(emit func(hx.Case)) {
 	}
 	kinds := []string{"schema", "response", "parameter", "requestBody", "pathItem", "callback", "header"}
 	for ki, kind := range kinds {
-		for i, e1 := range entries {
-			for j, e2 := range entries {
+		// with LoadFromData too: one data load per epoch, so a history may now hold several of them
+		entriesA := []string{"data", "file", "path", "uri"}
+		for i, e1 := range entriesA {
+			for j, e2 := range entriesA {
 				if ki > 0 && (i+j+ki)%3 != 0 {
 					continue // every pair of entry points for schemas, a third of them for the other kinds
 				}
@@ -1332,6 +1334,9 @@ func c02ShapesRound5(emit func(hx.Case)) {
 						l := empty()
 						p := base(e) + "/root.json"
 						l.raw(p, c02Rev(kind, r.fixed, r.id))
+						if e == "data" {
+							l.virtual = map[string]bool{p: true}
+						}
 						l.loads = [][2]string{{e, p}}
 						eps = append(eps, l)
 					}
